@@ -367,7 +367,7 @@ theorem exec_good (sm st : Bool) (x : Ident) (h : Exec s σ o σ') :
       have gb := ihb.1 hf.1.1.1.2 hx.1.1
       simp only [Good, Step, StepAt, gen, pass, genAt, passAt, lateRead, Bool.or_eq_true] at *
       grind
-  | @hMatch ty σ nm σ2 hb o σ3 rest _ _ _ ihty ihnm ihhb =>
+  | @hMatch ty σ nm σ2 hb o σ3 rest _ _ _ hns ihty ihnm ihhb =>
       refine ⟨by simp [inFrag], fun hh hx => ?_⟩
       simp only [inFrag.inHs, Bool.and_eq_true] at hh
       simp only [exNames, List.mem_append, not_or, or_and_left] at hx
@@ -393,7 +393,7 @@ theorem exec_good (sm st : Bool) (x : Ident) (h : Exec s σ o σ') :
         · exact h
         · cases h
       clear gn
-      rcases gb with ⟨ho, hs⟩ | ⟨r, ho, hs⟩
+      rcases gb with ⟨ho, hs⟩ | ⟨r, ho, _⟩
       · refine .inl ⟨ho, fun v hv hd => ?_⟩
         have h3 := hs v hv (hdel v hv hd)
         have g2 := gn' v hv; have p := pty v
@@ -403,8 +403,24 @@ theorem exec_good (sm st : Bool) (x : Ident) (h : Exec s σ o σ') :
         · rcases g2 h4 with g2 | ⟨g2, g3⟩
           · exact .inl (.inr (.inl ⟨h3, .inl g2⟩))
           · exact .inr ⟨.inl ⟨p.1, g2, h3⟩, g3⟩
-      · refine .inr ⟨r, ho, fun v hv hd => ?_⟩
-        have h3 := hs v hv (hdel v hv hd)
+      · exact absurd ho (hns r)
+  | @hMatchS ty σ nm σ2 hb r σ3 rest _ _ _ ihty ihnm ihhb =>
+      refine ⟨by simp [inFrag], fun hh hx => ?_⟩
+      simp only [inFrag.inHs, Bool.and_eq_true] at hh
+      simp only [exNames, List.mem_append, not_or, or_and_left] at hx
+      have gn := ihnm.1 (isName_inFrag st _ hh.1.1.2) (.inr (by cases nm <;> simp_all [isName, exNames])); have gb := ihhb.1 hh.1.2 hx.1.2
+      have pty := fun v => isReads_pass ty hh.1.1.1 x v
+      clear ihty ihnm ihhb
+      have gn' : ∀ v, (sm = true → v ≠ none) → σ2 x = v → gen nm x v ∨ (pass nm x ∧ σ x = v) := by
+        rcases gn with ⟨_, h⟩ | ⟨r, h, _⟩
+        · exact h
+        · cases h
+      clear gn
+      rcases gb with ⟨ho, _⟩ | ⟨r', ho, hs⟩
+      · cases ho
+      · cases ho
+        refine .inr ⟨r, rfl, fun v hv hd => ?_⟩
+        have h3 := hs v hv hd
         have g2 := gn' v hv; have p := pty v
         simp only [genAt, passAt, lateRead, Bool.or_eq_true]
         rcases h3 with h3 | h3 | ⟨h3, h4⟩
